@@ -40,6 +40,7 @@ func (r *run) check(op Op) error {
 	r.st.checks++
 	view := r.s.Tip.View
 	confirmed := r.confirmedTxs()
+	sigFlags := consensus.BlockScriptFlags(r.s.Tip.Idx.Height+1, r.s.P)
 
 	txpool.TxMutex.Lock()
 	defer txpool.TxMutex.Unlock()
@@ -106,6 +107,7 @@ func (r *run) check(op Op) error {
 		var vin, vout uint64
 		var memCnt uint32
 		parents := map[[32]byte]bool{}
+		coins := make([]consensus.Coin, len(p.tx.In))
 		for j, in := range p.tx.In {
 			k := consensus.OutKey(in.PrevHash, in.PrevIndex)
 			par := byID[in.PrevHash]
@@ -116,6 +118,7 @@ func (r *run) check(op Op) error {
 			case fromPool && fromChain:
 				return fmt.Errorf("pooled transaction %s input %d spends %s:%d, which is both confirmed-unspent and an output of pooled transaction %s (the parent duplicates the chain)", short(p.id), j, short(in.PrevHash), in.PrevIndex, short(par.id))
 			case fromPool:
+				coins[j] = consensus.Coin{Value: par.tx.Out[in.PrevIndex].Value, Script: par.tx.Out[in.PrevIndex].PkScript}
 				vin += par.tx.Out[in.PrevIndex].Value
 				memCnt++
 				parents[par.id] = true
@@ -123,6 +126,7 @@ func (r *run) check(op Op) error {
 					return fmt.Errorf("pooled transaction %s input %d spends an output of pooled transaction %s, but its MemInputs flag is not set", short(p.id), j, short(par.id))
 				}
 			case fromChain:
+				coins[j] = coin
 				vin += coin.Value
 				if flag {
 					return fmt.Errorf("pooled transaction %s input %d spends the confirmed output %s:%d, but its MemInputs flag is set", short(p.id), j, short(in.PrevHash), in.PrevIndex)
@@ -160,6 +164,15 @@ func (r *run) check(op Op) error {
 		}
 		if t.Weight() != p.tx.Weight() || t.VSize() != p.tx.VSize() {
 			return fmt.Errorf("pooled transaction %s: recorded weight %d / vsize %d, reference %d / %d", short(p.id), t.Weight(), t.VSize(), p.tx.Weight(), p.tx.VSize())
+		}
+		// the recorded sig-op cost (what the node's own block template code budgets with) = GetTransactionSigOpCost
+		if want := consensus.TxSigOpCost(p.tx, coins, sigFlags); t.SigopsCost != uint64(want) && os.Getenv("VERIF_C12_NO_SIGOPS_ORACLE") == "" {
+			return fmt.Errorf("pooled transaction %s: recorded SigopsCost %d, the reference counts %d (4 x legacy + 4 x P2SH redeem script + witness sig-ops of the spent outputs)", short(p.id), t.SigopsCost, want)
+		} else if want >= 1000 {
+			r.st.label("sigop_heavy_tx_pooled")
+			if r.undone[p.id] {
+				r.st.label("sigop_heavy_tx_returned_by_undo")
+			}
 		}
 		totWeight += uint64(p.tx.Weight())
 	}
